@@ -41,6 +41,15 @@ def gen(chk):
         args = [chain(r, k, kind) for r in rng.sample(regs, m)]
         t = ('O', rng.choice(['+', '&', '|', '^', '*']), args)
         groups.append(('deeptwins', [t] + [X.permute_assoc(t, rng) for _ in range(3)]))
+    # segment twins: memory cells with the same address and width that differ only by their segment selector (or have none)
+    segs = [('D', sname, 16, 1, 0) for sname in ('es', 'cs', 'ss', 'ds', 'fs', 'gs')]
+    for i in range(n // 50 + 24):
+        addr = rng.choice(regs + [('O', '+', [regs[i % len(regs)], ('I', 0, 32, 8)])])
+        w = rng.choice([8, 16, 32]); m = rng.choice([2, 3, 4])
+        cells = [('M', w, addr, sg) for sg in rng.sample(segs + [None], m)]
+        if rng.random() < 0.5: cells.append(('D', 'a%d' % w, w, 0, 0))
+        t = ('O', rng.choice(['+', '&', '|', '^', '*']), cells)
+        groups.append(('segtwins', [t] + [X.permute_assoc(t, rng) for _ in range(3)]))
     return groups
 
 def run(tier):
